@@ -312,6 +312,8 @@ type SODOptions struct {
 	Override    map[int][]byte // replace the hash of a data group (a wrong list)
 	Omit        []int          // leave these data groups out of the list
 	NoOuter77   bool           // emit the bare ContentInfo
+	// HashOrder: 0 ascending data group numbers; 1 descending; 2 rotated by one; 3 highest number first, rest ascending
+	HashOrder int
 }
 
 // SignSODDetailed builds EF.SOD for the given data-group files and returns the
@@ -339,6 +341,17 @@ func (p *PKI) SignSODDetailed(dgs map[int][]byte, o SODOptions) (*SignedData, er
 		if v, ok := all[n]; ok {
 			list = append(list, DGHash{n, v})
 		}
+	}
+	switch n := len(list); {
+	case n < 2:
+	case o.HashOrder == 1:
+		for i, j := 0, n-1; i < j; i, j = i+1, j-1 {
+			list[i], list[j] = list[j], list[i]
+		}
+	case o.HashOrder == 2:
+		list = append(append([]DGHash{}, list[1:]...), list[0])
+	case o.HashOrder == 3:
+		list = append([]DGHash{list[n-1]}, list[:n-1]...)
 	}
 	lv, uv := o.LDSVersionStr, o.UnicodeVersion
 	if lv == "" {
